@@ -182,11 +182,16 @@ func set2(b *m2.Base, t *m2.Temporal, e *m2.Environmental, name string, v int) b
 }
 
 // opF3: decode (any outcome), set one exported field, dump the receiver.
+var queryFirst bool
+
 func opF3(level, vec, name string, v int) string {
 	switch level {
 	case "B":
 		o := m3.NewBase()
 		o.Decode(vec)
+		if queryFirst {
+			dump3(level, o, nil, nil)
+		}
 		if !set3(o, nil, nil, name, v) {
 			return "nofield"
 		}
@@ -194,6 +199,9 @@ func opF3(level, vec, name string, v int) string {
 	case "T":
 		o := m3.NewTemporal()
 		o.Decode(vec)
+		if queryFirst {
+			dump3(level, o.BaseMetrics(), o, nil)
+		}
 		if !set3(o.Base, o, nil, name, v) {
 			return "nofield"
 		}
@@ -201,6 +209,9 @@ func opF3(level, vec, name string, v int) string {
 	default:
 		o := m3.NewEnvironmental()
 		o.Decode(vec)
+		if queryFirst {
+			dump3(level, o.BaseMetrics(), o.TemporalMetrics(), o)
+		}
 		if !set3(o.Base, o.Temporal, o, name, v) {
 			return "nofield"
 		}
@@ -213,6 +224,9 @@ func opF2(level, vec, name string, v int) string {
 	case "B":
 		o := m2.NewBase()
 		o.Decode(vec)
+		if queryFirst {
+			dump2(o, nil, nil)
+		}
 		if !set2(o, nil, nil, name, v) {
 			return "nofield"
 		}
@@ -220,6 +234,9 @@ func opF2(level, vec, name string, v int) string {
 	case "T":
 		o := m2.NewTemporal()
 		o.Decode(vec)
+		if queryFirst {
+			dump2(o.BaseMetrics(), o, nil)
+		}
 		if !set2(o.Base, o, nil, name, v) {
 			return "nofield"
 		}
@@ -227,6 +244,9 @@ func opF2(level, vec, name string, v int) string {
 	default:
 		o := m2.NewEnvironmental()
 		o.Decode(vec)
+		if queryFirst {
+			dump2(o.BaseMetrics(), o.TemporalMetrics(), o)
+		}
 		if !set2(o.Base, o.Temporal, o, name, v) {
 			return "nofield"
 		}
@@ -262,12 +282,16 @@ func runOpExt2(f []string) (string, bool) {
 		return opQ3(arg(1), arg(2)), true
 	case "Q2":
 		return opQ2(arg(1), arg(2)), true
-	case "F3", "F2":
+	case "F3", "F2", "G3", "G2":
+		// F: decode, overwrite one exported field, query.  G: decode, query everything, overwrite the field, query again
+		// (an object that has already answered must answer for its *current* fields)
 		v, err := strconv.Atoi(arg(4))
 		if err != nil {
 			return "", false
 		}
-		if f[0] == "F3" {
+		queryFirst = f[0][0] == 'G'
+		defer func() { queryFirst = false }()
+		if f[0][1] == '3' {
 			return opF3(arg(1), unhx(arg(2)), arg(3), v), true
 		}
 		return opF2(arg(1), unhx(arg(2)), arg(3), v), true
